@@ -36,6 +36,13 @@ def sh(cmd, timeout=600, cwd=None, env=None, input=None, check=False):
     e.update({"CARGO_NET_OFFLINE": "true", "LC_ALL": "C.UTF-8"})
     if env:
         e.update(env)
+    if _is_bindgen_cmd(cmd):
+        rc, out, _ = _guarded(cmd, timeout, cwd, e, input, True)
+        if rc == 124:
+            out += "\n[timeout after %ss]" % timeout
+        if check and rc != 0:
+            raise RuntimeError("command failed (%s): %s\n%s" % (rc, cmd, out[-3000:]))
+        return rc, out
     try:
         p = subprocess.run(cmd, shell=isinstance(cmd, str), cwd=cwd, env=e, input=input,
                            stdout=subprocess.PIPE, stderr=subprocess.STDOUT, timeout=timeout,
@@ -49,12 +56,81 @@ def sh(cmd, timeout=600, cwd=None, env=None, input=None, check=False):
     return rc, out
 
 
+ENV_FLAKES = {"clang_probe_spin": 0}
+
+
+def _descendants(pid):
+    out, todo = [], [str(pid)]
+    while todo:
+        q = todo.pop()
+        try:
+            kids = subprocess.run(["pgrep", "-P", q], stdout=subprocess.PIPE, text=True, timeout=10).stdout.split()
+        except Exception:
+            kids = []
+        out += kids
+        todo += kids
+    return out
+
+
+def _clang_probe_spinning(pid, older_than=4.0):
+    """clang_sys asks the clang driver for its search paths (`clang -E -x c - -v`, empty stdin) at the start of every Builder::generate.
+    clang 14 occasionally lexes garbage there and prints diagnostics for minutes (seen under gdb: cc1 in TextDiagnostic, fd 0 = /dev/null).
+    That is the installed compiler, not bindgen: such a run is repeated instead of being reported as a hang."""
+    for k in _descendants(pid):
+        try:
+            cmdl = open("/proc/%s/cmdline" % k, "rb").read().split(b"\0")
+            st = os.stat("/proc/%s" % k)
+        except OSError:
+            continue
+        if b"-E" in cmdl and b"-v" in cmdl and b"-" in cmdl and os.path.basename(cmdl[0]).startswith(b"clang") and time.time() - st.st_mtime > older_than:
+            return True
+    return False
+
+
+def _guarded(cmd, timeout, cwd, e, input, merge):
+    """run a bindgen / harness command; returns (rc, out, err); rc 124 on a real timeout"""
+    for attempt in range(4):
+        pr = subprocess.Popen(cmd, cwd=cwd, env=e, stdin=subprocess.PIPE if input is not None else None, stdout=subprocess.PIPE,
+                              stderr=subprocess.STDOUT if merge else subprocess.PIPE, text=True, errors="replace")
+        t0 = time.time()
+        first = True
+        while True:
+            try:
+                o, er = pr.communicate(input=input if first else None, timeout=min(6.0, max(0.5, timeout - (time.time() - t0))))
+                return pr.returncode, o, er or ""
+            except subprocess.TimeoutExpired:
+                first = False
+                spin = _clang_probe_spinning(pr.pid)
+                if spin or time.time() - t0 >= timeout:
+                    for k in _descendants(pr.pid):
+                        try:
+                            os.kill(int(k), 9)
+                        except OSError:
+                            pass
+                    pr.kill()
+                    try:
+                        pr.communicate(timeout=10)
+                    except Exception:
+                        pass
+                    if spin and attempt < 3:
+                        ENV_FLAKES["clang_probe_spin"] += 1
+                        break
+                    return 124, "", "[timeout after %ss]" % timeout
+    return 124, "", "[timeout after %ss]" % timeout
+
+
+def _is_bindgen_cmd(cmd):
+    return isinstance(cmd, (list, tuple)) and cmd and os.path.basename(str(cmd[0])) in ("bindgen", "bgv")
+
+
 def sh2(cmd, timeout=600, cwd=None, env=None, input=None):
     """like sh but keeps stdout and stderr apart; input/stdout are bytes-safe text"""
     e = dict(os.environ)
     e.update({"CARGO_NET_OFFLINE": "true", "LC_ALL": "C.UTF-8"})
     if env:
         e.update(env)
+    if _is_bindgen_cmd(cmd):
+        return _guarded(cmd, timeout, cwd, e, input, False)
     try:
         p = subprocess.run(cmd, shell=isinstance(cmd, str), cwd=cwd, env=e, input=input,
                            stdout=subprocess.PIPE, stderr=subprocess.PIPE, timeout=timeout,
@@ -442,7 +518,7 @@ class Check:
             "distinct_nontrivial": len(self.nontrivial),
             "samples": self.samples if self.samples else [o["name"] for o in self.obligations[:5]],
             "obligation_list": self.obligations,
-            "counters": self.notes,
+            "counters": dict(self.notes, environment_flakes_retried=dict(ENV_FLAKES)),
             "known_findings_reproduced": sorted(self.known_hit),
             "known_findings_listed_not_reproduced_this_run": sorted(
                 k["class"] for k in self.known if k.get("status") == "known" and k["class"] not in self.known_hit),
